@@ -116,14 +116,16 @@ Record xsys := mkX {
   x_gc : option gcst;              (* Some = gcActive *)
   x_iters : list (N * iter);       (* open iterators: numActiveIterators = length *)
   x_todel : list N;                (* filesToBeDeleted *)
-  x_items : list (N * entry) }.    (* items obtained by Txn.Get and still held *)
+  x_items : list (N * entry);      (* items obtained by Txn.Get and still held *)
+  x_dmax : N }.                    (* ghost: the largest discard timestamp any compaction has used *)
 
 Definition init_x (managed detect : bool) (nkeep : N) (nlevels : nat) (next thr maxent : N) : xsys :=
-  mkX (init_sys managed detect nkeep nlevels next) (init_v thr maxent) None [] [] [].
+  mkX (init_sys managed detect nkeep nlevels next) (init_v thr maxent) None [] [] [] 0.
 
-Definition set_sys (s : xsys) (y : sys) : xsys := mkX y (x_v s) (x_gc s) (x_iters s) (x_todel s) (x_items s).
-Definition set_v (s : xsys) (v : vstate) : xsys := mkX (x_sys s) v (x_gc s) (x_iters s) (x_todel s) (x_items s).
-Definition set_gc (s : xsys) (g : option gcst) : xsys := mkX (x_sys s) (x_v s) g (x_iters s) (x_todel s) (x_items s).
+Definition set_sys (s : xsys) (y : sys) : xsys := mkX y (x_v s) (x_gc s) (x_iters s) (x_todel s) (x_items s) (x_dmax s).
+Definition set_v (s : xsys) (v : vstate) : xsys := mkX (x_sys s) v (x_gc s) (x_iters s) (x_todel s) (x_items s) (x_dmax s).
+Definition set_gc (s : xsys) (g : option gcst) : xsys := mkX (x_sys s) (x_v s) g (x_iters s) (x_todel s) (x_items s) (x_dmax s).
+Definition set_dmax (s : xsys) (d : N) : xsys := mkX (x_sys s) (x_v s) (x_gc s) (x_iters s) (x_todel s) (x_items s) d.
 Definition x_db (s : xsys) : lsm := s_db (x_sys s).
 
 (* ---- rewrite, phase 1: the scan of one record (the closure `fe`) ---- *)
@@ -161,6 +163,7 @@ Definition file_present (v : vstate) (fid : N) : bool :=
 (* ---- labels ---- *)
 Inductive xop :=
 | Base (o : op)
+| CommitV (t cts r : N) (ord : list (bytes * N))   (* Commit + observed value-log order *)
 | GetHold (h t : N) (k : bytes) (r : getres)     (* Txn.Get; the item is kept, its value not read yet *)
 | ItemValue (h : N) (val : bytes)                (* Item.ValueCopy on a held item *)
 | ItOpen (i t : N) (o : iopts)                   (* Txn.NewIterator *)
@@ -209,12 +212,15 @@ Fixpoint lists_eqb (a b : list (list entry)) : bool :=
   | _, _ => false
   end.
 
-(* the same-key@version precedence fact a compaction is expected to respect: every entry that
-   wins a lookup afterwards already won the lookup for its own key@version before *)
+(* the same-key@version precedence fact a compaction is expected to respect (decidable spot
+   check of hypothesis `compact_keeps_winners` of GcProofs.v on the timestamps that matter):
+   an entry that wins a lookup at or above the discard timestamp afterwards is the entry that
+   won it before *)
 Definition level_entries (ls : list (list table)) : list entry := concat (map (fun l => concat (map t_ents l)) ls).
-Definition prec_kept (d d' : lsm) : bool :=
-  forallb (fun e => match db_get d' (e_key e) (e_ver e) with
-                    | Some w => match db_get d (e_key e) (e_ver e) with
+Definition prec_kept (d d' : lsm) (disc : N) : bool :=
+  forallb (fun e => let ts := N.max (e_ver e) disc in
+                    match db_get d' (e_key e) ts with
+                    | Some w => match db_get d (e_key e) ts with
                                 | Some w0 => entry_eqb w w0
                                 | None => false
                                 end
@@ -227,16 +233,45 @@ Definition the_clamp (s : xsys) : option N :=
   | None => None
   end.
 
+(* commitAndSend ranges over the pendingWrites MAP: the order in which the entries of one
+   transaction reach the value log is not determined by the program.  `ord` is the observed
+   order of the entries that went to the value log; the request is that permutation. *)
+Fixpoint take_kv (k : bytes) (v : N) (es : list entry) : option (entry * list entry) :=
+  match es with
+  | [] => None
+  | e :: r => if bytes_eqb (e_key e) k && (e_ver e =? v) then Some (e, r)
+              else match take_kv k v r with
+                   | Some (x, r') => Some (x, e :: r')
+                   | None => None
+                   end
+  end.
+Fixpoint order_by (ord : list (bytes * N)) (es : list entry) : list entry :=
+  match ord with
+  | [] => es
+  | (k, v) :: r => match take_kv k v es with
+                   | Some (e, rest) => e :: order_by r rest
+                   | None => order_by r es
+                   end
+  end.
+
 (* commitAndSend + one write request (placement) + writeToLSM *)
-Definition xcommit (s : xsys) (t : N) (x : txn) (cts : N) : N * N * xsys :=
+Definition xcommit (s : xsys) (t : N) (x : txn) (cts : N) (ord : list (bytes * N)) : N * N * xsys :=
   let '(r, ts, y1) := txn_commit (x_sys s) t x cts in
   match x_pend x with
   | [] => (r, ts, set_sys s y1)
   | _ =>
       if (r =? 0) then
-        let '(v', pes) := write_req (x_v s) (commit_entries x ts) in
+        let '(v', pes) := write_req (x_v s) (order_by ord (commit_entries x ts)) in
         (r, ts, set_v (set_sys s (set_db y1 (apply_entries (x_db s) pes))) v')
       else (r, ts, set_sys s y1)
+  end.
+
+Definition commit_step (s : xsys) (t cts r : N) (ord : list (bytes * N)) : xresult :=
+  match lookup (s_txns (x_sys s)) t with
+  | Some x => let '(r', ts, s') := xcommit s t x cts ord in
+              if (r' =? r) && ((negb (r' =? 0)) || (ts =? 0) || (ts =? cts))
+              then XOk s' [if v_max (x_v s') =? v_max (x_v s) then 0 else 221] else XBad 1
+  | None => XBad 2
   end.
 
 Definition base_step (s : xsys) (o : op) : xresult :=
@@ -259,13 +294,7 @@ Definition base_step (s : xsys) (o : op) : xresult :=
           else XBad 1
       | None => XBad 2
       end
-  | Commit t cts r =>
-      match lookup (s_txns y) t with
-      | Some x => let '(r', ts, s') := xcommit s t x cts in
-                  if (r' =? r) && ((negb (r' =? 0)) || (ts =? 0) || (ts =? cts))
-                  then XOk s' [if v_max (x_v s') =? v_max v then 0 else 221] else XBad 1
-      | None => XBad 2
-      end
+  | Commit t cts r => commit_step s t cts r []
   | Compact c out =>
       let ls := l_levels (s_db y) in
       let pc := pick_check ls c in
@@ -278,9 +307,9 @@ Definition base_step (s : xsys) (o : op) : xresult :=
         let ls' := apply_compaction ls c in
         if sorted_by_smallest (nth (c_next c) ls' []) || (length (nth (c_next c) ls' []) <=? 1)%nat
         then let d' := mkLsm (l_mt (s_db y)) (l_imm (s_db y)) ls' in
-             XOk (set_sys s (set_db y d'))
-                 [(match the_clamp s with Some cl => if cl <? s_discard y then 261 else 260 | None => 0 end);
-                  (if prec_kept (s_db y) d' then 0 else 277)]
+             XOk (set_dmax (set_sys s (set_db y d')) (N.max (x_dmax s) (c_discard c)))
+                 [(match the_clamp s with Some cl => if c_discard c =? cl then 261 else 260 | None => 0 end);
+                  (if prec_kept (s_db y) d' (c_discard c) then 0 else 277)]
         else XBad 3
       else XBad 1
   | Dump dmp => if dump_eqb (view_levels v (l_levels (s_db y))) dmp then XOk s [] else XBad 1
@@ -293,8 +322,8 @@ Definition base_step (s : xsys) (o : op) : xresult :=
 Definition close_iter (s : xsys) (i : N) : xsys :=
   let its := filter (fun p => negb (fst p =? i)) (x_iters s) in
   match its with
-  | [] => mkX (x_sys s) (remove_fids (x_todel s) (x_v s)) (x_gc s) [] [] (x_items s)   (* decrIteratorCount reached 0 *)
-  | _ => mkX (x_sys s) (x_v s) (x_gc s) its (x_todel s) (x_items s)
+  | [] => mkX (x_sys s) (remove_fids (x_todel s) (x_v s)) (x_gc s) [] [] (x_items s) (x_dmax s)   (* decrIteratorCount reached 0 *)
+  | _ => mkX (x_sys s) (x_v s) (x_gc s) its (x_todel s) (x_items s) (x_dmax s)
   end.
 
 Definition keys_eqb (a b : list (bytes * N)) : bool :=
@@ -310,12 +339,13 @@ Definition xstep (s : xsys) (o : xop) : xresult :=
   let v := x_v s in
   match o with
   | Base b => base_step s b
+  | CommitV t cts r ord => commit_step s t cts r ord
   | GetHold h t k r =>
       match lookup (s_txns y) t with
       | Some x => let '(r', x') := txn_get y x k in
                   if getres_meta_eqb v r' r then
                     XOk (mkX (set_txn y t x') v (x_gc s) (x_iters s) (x_todel s)
-                             (match r' with GFound e => update (x_items s) h e | _ => x_items s end))
+                             (match r' with GFound e => update (x_items s) h e | _ => x_items s end) (x_dmax s))
                         [match r' with GFound e => if is_ptr e then 252 else 253 | _ => 0 end]
                   else XBad 1
       | None => XBad 2
@@ -329,7 +359,7 @@ Definition xstep (s : xsys) (o : xop) : xresult :=
       end
   | ItOpen i t o =>
       match lookup (s_txns y) t with
-      | Some _ => XOk (mkX y v (x_gc s) (update (x_iters s) i (mkIt t o (s_db y))) (x_todel s) (x_items s)) []
+      | Some _ => XOk (mkX y v (x_gc s) (update (x_iters s) i (mkIt t o (s_db y))) (x_todel s) (x_items s) (x_dmax s)) []
       | None => XBad 2
       end
   | ItRun i seek items =>
@@ -383,7 +413,7 @@ Definition xstep (s : xsys) (o : xop) : xresult :=
                | wb =>
                    let '(v', pes) := write_req v (map snd wb) in
                    XOk (mkX (set_db y (apply_entries (s_db y) pes)) v'
-                            (Some (mkGc (g_fid g) (g_clamp g) true [])) (x_iters s) (x_todel s) (x_items s))
+                            (Some (mkGc (g_fid g) (g_clamp g) true [])) (x_iters s) (x_todel s) (x_items s) (x_dmax s))
                        [220; if v_max v' =? v_max v then 0 else 221]
                end
       | None => XBad 4
@@ -398,7 +428,7 @@ Definition xstep (s : xsys) (o : xop) : xresult :=
             | [] => if deferred then XBad 1
                     else XOk (set_v s (remove_fids [g_fid g] v)) [230]
             | _ => if deferred
-                   then XOk (mkX y v (x_gc s) (x_iters s) (x_todel s ++ [g_fid g]) (x_items s)) [231]
+                   then XOk (mkX y v (x_gc s) (x_iters s) (x_todel s ++ [g_fid g]) (x_items s) (x_dmax s)) [231]
                    else XBad 1
             end
       | None => XBad 4
